@@ -690,7 +690,7 @@ func c19FileStage(cfg Config, srcs []ListSource, res *ShardResult) {
 	n := 0
 	for _, src := range srcs {
 		sh := canon.HashBytes(mustJSON(src))
-		for _, ext := range []string{"srt", "vtt", "ssa", "stl", "ttml"} {
+		for _, ext := range []string{"srt", "vtt", "ssa", "ass", "stl", "ttml"} {
 			if Key64("file-stage", sh, ext)%6 != 0 {
 				continue
 			}
@@ -747,8 +747,27 @@ func c19FileOne(dir string, src ListSource, ext string, junk []byte, n int) *Vio
 	b3, c3 := write(fresh) // the same path a second time
 	os.Remove(fresh)
 	os.Remove(existing)
+	// the helper must leave the list alone as well: the same list object through Write and then through the other
+	// extension of the same family (.ssa / .ass) or the plain writer must give what a fresh list gives
 	var why string
+	if s := src.Build(); s != nil {
+		before := canon.Hash(s)
+		p1 := filepath.Join(dir, fmt.Sprintf("same-%d.%s", n, ext))
+		werr := func() (err error) {
+			defer func() {
+				if p := recover(); p != nil {
+					err = fmt.Errorf("panic: %v", p)
+				}
+			}()
+			return s.Write(p1)
+		}()
+		os.Remove(p1)
+		if werr == nil && canon.Hash(s) != before {
+			why = fmt.Sprintf("Subtitles.Write(x.%s) changed the cue list it was called on (canonical rendering incl. metadata differs before/after)", ext)
+		}
+	}
 	switch {
+	case why != "":
 	case c2 != "ok" || !bytes.Equal(b1, b2):
 		why = fmt.Sprintf("written over an existing, longer file the destination holds %d bytes (%s), at a fresh path %d bytes", len(b2), c2, len(b1))
 	case c3 != "ok" || !bytes.Equal(b1, b3):
